@@ -252,6 +252,23 @@ def run_inv(ctx, i):
                 aa.reg.ExponentialKernel(coefficient=float(r.uniform(0.2, 2.0)), scale=1.0)][int(r.integers(4))]
 
     mode = int(rng.choice([0, 1, 1, 2]))   # 0: all regularised, 1: mix, 2: nothing regularised (function lists only)
+    units = 1.0
+    if i % 6 == 5:
+        # the same fit in other flux units (counts of 1e-20 .. 1e20 per pixel): F and H scale with 1/units^2, so the two log-determinants
+        # move by -2 P ln(units) (hundreds to thousands for a few dozen parameters) while chi-squared and the solution's shape stay
+        units = float(10.0 ** (rng.uniform(10, 20) * (1 if rng.random() < 0.5 else -1)))
+        mode = 0
+        case["d"] = case["d"] * units
+        case["noise"] = case["noise"] * units
+        case["ds"] = aa.Imaging(data=aa.Array2D(values=case["d"].copy(), mask=case["mask"]), noise_map=aa.Array2D(values=case["noise"].copy(), mask=case["mask"]),
+                                psf=aa.Kernel2D.no_mask(values=case["k"].copy(), pixel_scales=case["ps"]), use_normalized_psf=case["normalized"],
+                                over_sampling=aa.OverSamplingDataset(pixelization=aa.OverSamplingUniform(sub_size=case["sub_arg"])))
+        ctx.classes["flux_units:1e%+d" % int(np.round(np.log10(units)))] += 0
+        ctx.classes["other_flux_units"] += 1
+
+        def regf(r):  # noqa: F811
+            return [aa.reg.Constant(coefficient=float(r.uniform(0.1, 2.0)) / units),
+                    aa.reg.ConstantZeroth(coefficient_neighbor=float(r.uniform(0.1, 2.0)) / units, coefficient_zeroth=float(r.uniform(0.3, 2.0)) / units)][int(r.integers(2))]
     if mode == 2:
         objs, desc = gen_aa.linear_objects(aa, rng, case, kinds=("func",), allow_unregularized=True)
         for o in objs:
@@ -260,6 +277,17 @@ def run_inv(ctx, i):
             d["regularized"] = False
     else:
         objs, desc = gen_aa.linear_objects(aa, rng, case, allow_unregularized=(mode == 1), reg_factory=regf)
+    if units != 1.0:
+        objs, desc = gen_aa.linear_objects(aa, rng, case, kinds=("rect", "del"), allow_unregularized=False, reg_factory=regf)
+    nreg = [o for o in objs if o.regularization is not None]
+    if i % 5 == 2 and len(nreg) >= 2:
+        # one regularization instance shared by several linear objects (the natural way to give two mappers "the same" scheme)
+        shared = aa.reg.Constant(coefficient=float(rng.uniform(0.1, 2.0)))
+        for o, d in zip(objs, desc):
+            if o.regularization is not None:
+                o.regularization = shared
+                d["regularization"] = "Constant(shared instance)"
+        ctx.classes["shared_regularization_instance"] += 1
     for o, d in zip(objs, desc):
         if type(o.regularization).__name__ in ("GaussianKernel", "ExponentialKernel"):
             V = _np(o.source_plane_mesh_grid).astype(float)
@@ -316,6 +344,12 @@ def run_inv(ctx, i):
         return
     if max(tol_c, tol_h) > 1e-2:
         ctx.skipped["evidence.terms:ill_conditioned(tolerance>1e-2)"] += 1
+        # each determinant is still judged on its own when its own matrix is well conditioned (in other flux units the 1e-8 ridge of
+        # H is negligible and H is numerically singular, while F+H is not)
+        if tol_c <= 1e-2:
+            ctx.check(abs(g_c - t_c) <= tol_c, "evidence.terms", term="log_det_curvature_reg_matrix_term", got=g_c, expected=t_c, tol=tol_c, regularized_index_set=reg_idx, **W)
+        if tol_h <= 1e-2:
+            ctx.check(abs(g_h - t_h) <= tol_h, "evidence.terms", term="log_det_regularization_matrix_term", got=g_h, expected=t_h, tol=tol_h, regularized_index_set=reg_idx, **W)
     else:
         ctx.check(abs(g_reg - t_reg) <= 1e-9 * max(1e-300, float(np.abs(sr) @ np.abs(Hr) @ np.abs(sr)) if len(reg_idx) else 1.0) + 0.0 if len(reg_idx) else g_reg == 0.0,
                   "evidence.terms", term="regularization_term", got=g_reg, expected=t_reg, regularized_index_set=reg_idx, **W)
